@@ -105,14 +105,33 @@ fn build(s: &Spec, chain_id: &str) -> Bytes {
         }
         .into(),
         "fee_change" => FeeChange::Transfer(FeeComponents::new(u128::from(s.nonce) + 1, 0)).into(),
+        // a deposit for a rollup that has no sequenced data of its own in the block; its id sorts before every other
+        "lock" => astria_core::protocol::transaction::v1::action::BridgeLock {
+            to: bridge_address(),
+            amount: 7,
+            asset: nria().into(),
+            fee_asset: nria().into(),
+            destination_chain_address: "over-there".to_string(),
+        }
+        .into(),
         other => panic!("unknown kind {other}"),
     };
     let body = TransactionBody::builder().actions(vec![action]).chain_id(chain_id).nonce(s.nonce).try_build().unwrap();
     Bytes::from(body.sign(&signer(s.acct)).into_raw().encode_to_vec())
 }
 
+fn bridge_address() -> astria_core::primitive::v1::Address {
+    astria_address(&[0x77; 20])
+}
+
 async fn node() -> (Fixture, tendermint::block::Height) {
+    use crate::bridge::StateWriteExt as _;
     let mut f = Fixture::default_initialized().await;
+    // a bridge account whose rollup id ([0; 32]) is smaller than every id sequenced data is submitted for
+    f.state_mut().put_bridge_account_rollup_id(&bridge_address(), RollupId::new([0; 32])).unwrap();
+    f.state_mut().put_bridge_account_ibc_asset(&bridge_address(), nria()).unwrap();
+    f.app.prepare_commit(f.storage(), Vec::new()).await.unwrap();
+    f.app.commit(f.storage()).await.unwrap();
     let h = f.block_height().await.increment();
     (f, h)
 }
@@ -169,6 +188,7 @@ fn random_specs(rng: &mut StdRng) -> Vec<Spec> {
                 1 | 2 => ("data", 200_000),
                 3 => ("data", 56_000),
                 4 | 5 => ("data", rng.gen_range(1..2000)),
+                6 => ("lock", 0),
                 _ => ("transfer", 0),
             };
             // sometimes leave a gap: the mempool parks what follows
@@ -374,6 +394,13 @@ async fn honest_block() -> (Vec<Bytes>, Vec<Arc<CheckedTransaction>>, tendermint
     (txs, queue, height)
 }
 
+/// Adds a (general-group) transaction to an honest block where the group order allows it -- in front of the trailing
+/// sudo transaction -- so that the only thing wrong with the block is the added transaction itself.
+fn insert_general(txs: &mut Vec<Bytes>, tx: Bytes) {
+    let at = txs.len() - 1;
+    txs.insert(at, tx);
+}
+
 #[tokio::test]
 async fn proposal_mutations() {
     let cases = io::read_cases();
@@ -418,23 +445,23 @@ async fn proposal_mutations() {
                 txs.insert(injected, last);
             }
             "append_failing_tx" => {
-                txs.push(build(&Spec { acct: 2, nonce: 1, kind: "overdraft", data: 0 }, "test"));
+                insert_general(&mut txs, build(&Spec { acct: 2, nonce: 1, kind: "overdraft", data: 0 }, "test"));
             }
-            "append_garbage" => txs.push(Bytes::from_static(b"\xff\xfe not a transaction")),
+            "append_garbage" => insert_general(&mut txs, Bytes::from_static(b"\xff\xfe not a transaction")),
             "append_bad_signature" => {
                 let mut b = build(&Spec { acct: 2, nonce: 1, kind: "transfer", data: 0 }, "test").to_vec();
                 // the signature is the first field of the raw transaction
                 b[10] ^= 0x40;
-                txs.push(b.into());
+                insert_general(&mut txs, b.into());
             }
             "append_wrong_chain_id" => {
-                txs.push(build(&Spec { acct: 2, nonce: 1, kind: "transfer", data: 0 }, "some-other-chain"));
+                insert_general(&mut txs, build(&Spec { acct: 2, nonce: 1, kind: "transfer", data: 0 }, "some-other-chain"));
             }
             "append_stale_nonce" => {
-                txs.push(build(&Spec { acct: 2, nonce: 0, kind: "transfer", data: 0 }, "test"));
+                insert_general(&mut txs, build(&Spec { acct: 2, nonce: 0, kind: "transfer", data: 0 }, "test"));
             }
             "append_gapped_nonce" => {
-                txs.push(build(&Spec { acct: 2, nonce: 5, kind: "transfer", data: 0 }, "test"));
+                insert_general(&mut txs, build(&Spec { acct: 2, nonce: 5, kind: "transfer", data: 0 }, "test"));
             }
             "over_sequenced_limit" => {
                 // two transactions of 200 000 sequenced bytes each, with correctly recomputed commitments
